@@ -13,6 +13,7 @@ import (
 	"fmt"
 	"math/rand/v2"
 	"os"
+	"regexp"
 	"sort"
 	"strconv"
 	"strings"
@@ -103,14 +104,14 @@ type vWorld struct {
 	log          []vEv
 	failStart    map[string]bool
 	failStop     map[string]bool
-	failCreate   map[string]bool // exporter keys whose factory returns an error
+	failCreate   map[string]bool // exporter keys / extension labels whose factory returns an error
 	// failure injection by creation order (collector harness: the labels are not known before Run): the idx-th created
 	// component of the kind gets a failing Start (or Shutdown); what it landed on is recorded in injStart / injStop
 	failRules         []vFailRule
 	kindCount         map[byte]int
 	injStart, injStop []string
-	// extension labels whose NotifyConfig / Ready returns an error
-	failNotify, failReady map[string]bool
+	// extension labels whose NotifyConfig / Ready / NotReady returns an error
+	failNotify, failReady, failNotReady map[string]bool
 }
 
 func newVWorld() *vWorld {
@@ -122,7 +123,7 @@ func newVWorld() *vWorld {
 func newVWorld0() *vWorld {
 	return &vWorld{creates: map[string]int{}, procTok: map[int]string{}, extDeps: map[int][]int{},
 		sharedMap: sharedcomponent.NewMap[int, *vInner](), failStart: map[string]bool{}, failStop: map[string]bool{},
-		failNotify: map[string]bool{}, failReady: map[string]bool{}, failCreate: map[string]bool{}}
+		failNotify: map[string]bool{}, failReady: map[string]bool{}, failNotReady: map[string]bool{}, failCreate: map[string]bool{}}
 }
 
 type vFailRule struct {
@@ -245,7 +246,15 @@ func (e *vExt) Ready() error {
 	return e.w.done(i, nil)
 }
 
-func (e *vExt) NotReady() error { return nil }
+// NotReady: Service.Shutdown calls it on every PipelineWatcher before anything is shut down; an error is reported by Shutdown
+// but must not stop the remaining notifications or shutdowns.
+func (e *vExt) NotReady() error {
+	i := e.w.begin("notready", e.label)
+	if e.w.failNotReady[e.label] {
+		return e.w.done(i, fmt.Errorf("verif shutdown failure NotReady %s", e.label))
+	}
+	return e.w.done(i, nil)
+}
 
 var _ extensioncapabilities.Dependent = (*vExt)(nil)
 
@@ -519,6 +528,9 @@ func (w *vWorld) connFactory(t component.Type, supp [4][4]bool) connector.Factor
 func (w *vWorld) extFactory(t component.Type) extension.Factory {
 	return extension.NewFactory(t, vDefaultCfg,
 		func(_ context.Context, s extension.Settings, _ component.Config) (extension.Extension, error) {
+			if key := fmt.Sprintf("x%d", vIDNum(s.ID)); w.failCreate[key] { // a factory that fails inside extensions.New, after graph.Build succeeded
+				return nil, fmt.Errorf("verif create failure %s", key)
+			}
 			return w.mkExt(s.ID), nil
 		}, component.StabilityLevelStable)
 }
@@ -991,3 +1003,31 @@ func vGenSharedMore(rnd *rand.Rand, cfg *vCfg) {
 		}
 	}
 }
+
+var (
+	vReExtMissing = regexp.MustCompile(`unable to find extension k(\d+) on which extension k(\d+) depends`)
+	vReExtCycle   = regexp.MustCompile(`unable to order extensions by dependencies, cycle found \[([^\]]*)\]`)
+)
+
+// vExtMsgTokens: the content of computeOrder's two errors as tokens for the Lean monitors extMissingMsgOk / extCycleMsgOk:
+// "missing <dependency> <extension>" or "cycle <id> <id> ... <id>"; "?" when the text has another shape.
+func vExtMsgTokens(msg string) string {
+	if m := vReExtMissing.FindStringSubmatch(msg); m != nil {
+		return "missing " + m[1] + " " + m[2]
+	}
+	if m := vReExtCycle.FindStringSubmatch(msg); m != nil {
+		var ids []string
+		for _, el := range strings.Split(m[1], " -> ") {
+			if !strings.HasPrefix(el, "k") {
+				return "?"
+			}
+			if _, err := strconv.Atoi(el[1:]); err != nil {
+				return "?"
+			}
+			ids = append(ids, el[1:])
+		}
+		return "cycle " + strings.Join(ids, " ")
+	}
+	return "?"
+}
+
